@@ -588,6 +588,10 @@ def plan(tier, seed):
         specs.append(dict(name="node2-all-%d" % s, kind="node2all", first=list(range(s, len(n2), 6)), maxlen=3 if tier == "quick" else 4))
     for i in range(2):
         specs.append(dict(name="node2-random-%d" % i, kind="node2random", n=1000 if tier == "quick" else 20000))
+    # once more with the library's debug tracing switched on
+    specs.append(dict(name="tracing-cache-random", kind="cacherandom", n=60 if tier == "quick" else 3000, tracing=True))
+    specs.append(dict(name="tracing-node-random", kind="noderandom", n=200 if tier == "quick" else 5000, tracing=True))
+    specs.append(dict(name="tracing-node2-random", kind="node2random", n=200 if tier == "quick" else 5000, tracing=True))
     return specs
 
 
